@@ -29,14 +29,14 @@ ANNOUNCE = 225.0
 
 def floors(tier):
     q = tier == "quick"
-    return {"c09.probe_format": 400 if q else 40000, "c09.announce": 300 if q else 30000, "c09.conflict": 300 if q else 30000, "c09.registry": 400 if q else 40000}
+    return {"c09.probe_format": 8000 if q else 900000, "c09.announce": 3000 if q else 300000, "c09.conflict": 4000 if q else 500000, "c09.registry": 4000 if q else 500000}
 
 
 def plan(tier, seed):
     if tier == "quick":
-        n, per = 16, 50
+        n, per = 16, 500
     else:
-        n, per = 64, 1400
+        n, per = 64, 15000
     return [{"seed": seed, "shard": i, "per": per, "tier": tier} for i in range(n)]
 
 
